@@ -1424,6 +1424,9 @@ func c08RandVal(r *rand.Rand, t c08T, wire bool) c08V {
 			return c08V{Nil: true}
 		}
 		n := r.Intn(4)
+		if t.E[1].K == "ptr" {
+			n = r.Intn(7) // nullable items: longer maps, nil and non-nil items in any order
+		}
 		v := c08V{L: []c08V{}}
 		for i := 0; i < n; i++ {
 			k := c08RandVal(r, t.E[0], wire)
@@ -1433,6 +1436,17 @@ func c08RandVal(r *rand.Rand, t c08T, wire bool) c08V {
 		v.L = c08SortEntries(t, v.L)
 		if v.L == nil {
 			v.L = []c08V{}
+		}
+		// half of the time make sure a nil item FOLLOWS a non-nil one somewhere
+		if ne := len(v.L) / 2; t.E[1].K == "ptr" && ne >= 2 && r.Intn(2) == 0 {
+			i := r.Intn(ne - 1)
+			if v.L[2*i+1].Nil {
+				v.L[2*i+1] = c08RandVal(r, t.E[1].E[0], wire)
+				if t.E[1].E[0].K != "ptr" {
+					v.L[2*i+1].Nil = false
+				}
+			}
+			v.L[2*(i+1+r.Intn(ne-1-i))+1] = c08V{Nil: true}
 		}
 		return v
 	case "struct":
@@ -1545,6 +1559,11 @@ func c08Gen(r *rand.Rand, n int, tier string) []c08In {
 		out = append(out, c08In{Dir: dir, T: t, V: v, Tag: tag})
 	}
 	one := func(dir string, ft c08T, fv c08V, tag string) { add(dir, c08StructT(ft), c08L(fv), tag) }
+
+	// -- boundary block 00: maps with nullable items, a nil item at the first / middle / last key
+	// position and after non-nil items (the decoder must not let a null item inherit anything
+	// from the entry before it); both directions and the result path
+	c08GenNullItems(add)
 
 	// -- boundary block 0: named types with methods in every position, and the result path
 	c08GenNamed(r, add)
